@@ -1680,7 +1680,7 @@ func (x *Exec) callIsHeapNeutral(cc *ssa.CallCommon) bool {
 	if _, ok := x.purePattern(name); ok {
 		return true
 	}
-	if c, ok := x.P.Contracts[name]; ok {
+	if c, ok := x.contractOf(name); ok {
 		if _, p := c.Flags["pure"]; p {
 			return true
 		}
@@ -1703,7 +1703,7 @@ func (x *Exec) calleeFrameArrays(cc *ssa.CallCommon) ([]string, bool) {
 	if f == nil || cc.IsInvoke() {
 		return nil, false
 	}
-	c, ok := x.P.Contracts[CanonName(f)]
+	c, ok := x.contractOf(CanonName(f))
 	if !ok {
 		return nil, false
 	}
@@ -1978,7 +1978,7 @@ func (x *Exec) abstractCallFrame(st *State, cc *ssa.CallCommon) ([]string, bool)
 			return nil, false // dynamic call / closure value
 		}
 		name := CanonName(f)
-		if _, ok := x.P.Contracts[name]; ok {
+		if _, ok := x.contractOf(name); ok {
 			return nil, false
 		}
 		if f.Parent() != nil || x.shouldInline(st, name, f) {
